@@ -62,7 +62,7 @@ ASSUMPTIONS = ["float64 arithmetic modelled as exact real arithmetic",
                "element numbering e = i + nelx*(j + nely*k) (C13)",
                "support sets: 2D {-1,0,+1} along the in-layer axis; 3D nsampling 5 = centre + 4 edge neighbours, 9 = 3x3 block "
                "(Langelaar 2016/2017), elements outside the domain are skipped"]
-ITEM_TIMEOUT = {"quick": 110, "thorough": 600}
+ITEM_TIMEOUT = {"quick": 240, "thorough": 600}
 REPLAYS_PER_GROUP = 2
 
 VERIF = os.path.dirname(os.path.dirname(os.path.abspath(__file__)))
